@@ -273,6 +273,11 @@ def gen_cases(rnd, tier):
             for n in (count - 1, count, count + 1):
                 if n >= 0:
                     cases.append((("scal", kind, count), scalar_value(kind, count, rnd, n=n), b""))
+    # the two-to-three length-byte boundary on the one-byte-per-element classes (the wider ones in thorough)
+    if tier == "quick":
+        for kind in ("Binary", "String", "U1", "Boolean"):
+            for n in (65535, 65536):
+                cases.append((("scal", kind, -1), scalar_value(kind, -1, rnd, n=n, form="list" if kind in ("U1", "Boolean") else ("bytes" if kind == "Binary" else "str")), b""))
     # all 256 byte values in text and binary
     allb = bytes(range(256))
     cases.append((("scal", "Binary", -1), allb, b""))
@@ -281,7 +286,7 @@ def gen_cases(rnd, tier):
     cases.append((("scal", "JIS8", -1), allb, b""))
     cases.append((("scal", "JIS8", -1), allb.decode("jis_8"), b""))
     # 2. arrays at length-byte boundaries
-    for n in [0, 1, 255, 256] + ([65535, 65536] if tier == "thorough" else []):
+    for n in [0, 1, 255, 256] + ([1000, 4000] if tier == "thorough" else []):  # see c14.py about 65535-item lists
         cases.append((("arr", ("scal", "U1", -1), -1), [7] * n, b""))
         cases.append((("arr", ("scal", "String", -1), -1), ["ab"] * n, b"\x01"))
     for count in (0, 2):
